@@ -29,7 +29,7 @@ import (
 //	genesis <net> <header>            -> state dump       (trust root through putGenesisBlockHeader)
 //	sync <header> ... <header>        -> ok|reject:<class> + state dump   (one contract call; committed only on success)
 //
-// <header> = <hash> <parentHash> <salt> <number> <time> <difficulty> <uncleEmpty> <gasLimit> <gasUsed> <baseFee|nil> <extraLen>
+// <header> = <hash> <parentHash> <salt> <number> <time> <difficulty> <uncleEmpty> <gasLimit> <gasUsed> <baseFee|nil> <extraLen> <stateRoot>
 // (the hash is Keccak256(RLP(header)): computed by the generator with the real code and re-checked by Exec).
 type pow struct {
 	backend *overlaydb.OverlayDB
@@ -39,6 +39,7 @@ type pow struct {
 }
 
 const powChain = 2
+const powTok = 12 // tokens per header
 
 func init() { families["pow"] = func() hx.Family { return &pow{} } }
 
@@ -64,6 +65,7 @@ func powHeader(a []string) (*eth.Header, error) {
 	for i := range h.Extra {
 		h.Extra[i] = 0x42
 	}
+	copy(h.Root[:], hx.UnHex(a[11]))
 	want := hx.UnHex(a[0])
 	if got := h.Hash(); hex.EncodeToString(got[:]) != hex.EncodeToString(want) {
 		return nil, fmt.Errorf("hash in op line %x differs from Header.Hash() %x", want, got)
@@ -73,7 +75,7 @@ func powHeader(a []string) (*eth.Header, error) {
 
 func powFields(h *eth.Header) string {
 	hash := h.Hash()
-	return strings.Join([]string{hx.Hex(hash[:]), hx.Hex(h.ParentHash[:]), hx.Hex(h.Coinbase[:]), fieldsOf(h), fmt.Sprint(len(h.Extra))}, " ")
+	return strings.Join([]string{hx.Hex(hash[:]), hx.Hex(h.ParentHash[:]), hx.Hex(h.Coinbase[:]), fieldsOf(h), fmt.Sprint(len(h.Extra)), hx.Hex(h.Root[:])}, " ")
 }
 
 type powEntry struct {
@@ -235,14 +237,14 @@ func (f *pow) Exec(r *hx.Run, op []string) string {
 	case "sync":
 		setNetwork(f.net)
 		rest := op[1:]
-		if len(rest)%11 != 0 {
+		if len(rest)%powTok != 0 {
 			return "bad-op"
 		}
 		param := &scom.SyncBlockHeaderParam{ChainID: powChain}
 		allKnown := true
 		before, _ := f.readState(storage.NewCacheDB(f.backend))
-		for i := 0; i < len(rest); i += 11 {
-			h, err := powHeader(rest[i : i+11])
+		for i := 0; i < len(rest); i += powTok {
+			h, err := powHeader(rest[i : i+powTok])
 			if err != nil {
 				return "bad-op"
 			}
@@ -258,7 +260,18 @@ func (f *pow) Exec(r *hx.Run, op []string) string {
 		sink := common.NewZeroCopySink(nil)
 		param.Serialization(sink)
 		db := storage.NewCacheDB(f.backend)
-		res := classify(eth.NewETHHandler().SyncBlockHeader(newService(db, sink.Bytes())))
+		res := func() (res string) {
+			defer func() {
+				if e := recover(); e != nil {
+					res = "panic"
+					r.Viol("C27:sync-panics", fmt.Sprintf("SyncBlockHeader panics on a submission of stored-parent headers: %v", e))
+				}
+			}()
+			return classify(eth.NewETHHandler().SyncBlockHeader(newService(db, sink.Bytes())))
+		}()
+		if res == "panic" {
+			return res
+		}
 		if res == "ok" {
 			db.Commit() // the native service commits the contract cache only when the call succeeds
 		}
@@ -401,12 +414,14 @@ func (f *pow) Gen(r *hx.Run) {
 			}
 			lastA := prev
 			prev = g.Intn(2) // fork from the root or from A1
-			for i := 0; i < lb+prev; i++ {
+			nb := lb + prev
+			for i := 0; i < nb; i++ {
 				nodes = append(nodes, node{powChild(g, nodes[prev].h, uint32(t*100+len(nodes)), 1), prev, true})
 				shape = append(shape, fmt.Sprint(prev))
 				prev = len(nodes) - 1
 			}
-			for i := 0; i < 1+g.Intn(2); i++ {
+			extra := 1 + g.Intn(2)
+			for i := 0; i < extra; i++ {
 				nodes = append(nodes, node{powChild(g, nodes[lastA].h, uint32(t*100+len(nodes)), 1000), lastA, true})
 				shape = append(shape, fmt.Sprint(lastA))
 				lastA = len(nodes) - 1
